@@ -38,7 +38,7 @@ fn main() {
         Some("replay") => ctl::cmd_replay(&args.get(2).cloned().unwrap_or_default()),
         Some("list") => {
             for c in scen::checks() {
-                println!("{} {}", c.prop, c.parts.iter().map(|p| format!("{}{}", p.scen.name(), if p.xen { "[xen]" } else { "" })).collect::<Vec<_>>().join(" "));
+                println!("{} {}", c.prop, c.parts.iter().map(|p| format!("{}{}", p.name, if p.xen { "[xen]" } else { "" })).collect::<Vec<_>>().join(" "));
             }
             0
         }
